@@ -1,6 +1,10 @@
 package main
 
 import (
+	"sort"
+
+	"golang.org/x/tools/go/ssa"
+
 	"bytes"
 	"encoding/json"
 	"os"
@@ -20,7 +24,9 @@ func runC03(c *Ctx) {
 	cs := loadContracts(c)
 	c.Replayer = replayPrintRead
 	opt := vc.Options{Safety: true, InlineDepth: 2, InlineSize: 100}
+	markAppendOnly(c, cs)
 	runContracts(c, cs, opt, defaultSolve())
+	sweepAppendOnly(c, cs)
 	c.Assume = append(c.Assume,
 		"strconv.AppendInt and (*big.Int).Append are assumed to append an abstract digit sequence dig(v, base, j) of length ndig(v, base) (their inverse, the reader's number parser, is not covered)",
 		"floats, ratios, strings, characters, arrays and the pretty printer are not yet under contract")
@@ -104,4 +110,79 @@ func replayPrintRead(c *Ctx, items []*Item) map[string]*ReplayOutcome {
 		res[it.Name] = oc
 	}
 	return res
+}
+
+// sweepAppendOnly: the package-wide contract `every-function <pkg> append-only`: every function of the shape
+// f([recv,] b []byte, ...) []byte returns a buffer that starts with the bytes b held when it was called. Calls
+// of functions of that shape are used by this contract (assume / guarantee), library functions of the shape
+// (strconv.Append*, utf8.AppendRune, big.Int.Append, fmt.Append*, time.AppendFormat, ojg's AppendJSONString)
+// are assumed to append as documented.
+func sweepAppendOnly(c *Ctx, cs *vc.Contracts) {
+	pkgs := map[string]bool{}
+	for _, p := range cs.Sweeps["append-only"] {
+		if p == "slip" || c.Tier == "thorough" || c.WriteBase {
+			pkgs[p] = true
+		}
+	}
+	if len(pkgs) == 0 {
+		return
+	}
+	var names []string
+	for n := range c.P.Funcs {
+		names = append(names, n)
+	}
+	sort.Strings(names)
+	var roots []*ssa.Function
+	var synthetic []string
+	for _, n := range names {
+		fn := c.P.Funcs[n]
+		if !pkgs[pkgShort(fn)] || len(fn.Blocks) == 0 || fn.Parent() != nil || vc.AppendShape(fn) < 0 {
+			continue
+		}
+		if ct := cs.ByFunc[n]; ct != nil {
+			// a function with a contract of its own carries the option already (markAppendOnly); when that
+			// contract is tagged C03 it has been verified by runContracts, otherwise it is verified here
+			tagged := false
+			for _, p := range ct.Props {
+				if p == "C03" {
+					tagged = true
+				}
+			}
+			if !tagged {
+				roots = append(roots, fn)
+			}
+			continue
+		}
+		cs.ByFunc[n] = &vc.Contract{Func: n, Loops: map[string][]*vc.Clause{}, Options: map[string]bool{"append-only": true, "no-lambda": true}, Props: []string{"C03"}}
+		synthetic = append(synthetic, n)
+		roots = append(roots, fn)
+	}
+	o := vc.Options{Safety: false, InlineDepth: 2, InlineSize: 100, Contracts: cs}
+	res := c.runUnits(roots, o, defaultSolve(), 16)
+	for _, r := range res {
+		if r != nil && r.Err != "" {
+			c.Notes = append(c.Notes, "append-only: not verifiable: "+r.Fn+": "+firstLine(r.Err))
+		}
+	}
+	c.addResults(res)
+	for _, n := range synthetic {
+		delete(cs.ByFunc, n)
+	}
+	c.Extra["append_only_sweep_functions"] = len(roots)
+	c.Assume = append(c.Assume, "append-only is assumed at every call of a function of the shape f(b []byte, ...) []byte that is not inlined: module functions of that shape are each under the obligation themselves (those whose obligation is undecided are listed under undecided), interface methods Append / Readably / ScopedAppend implemented outside the module and the library functions strconv.Append*, utf8.AppendRune, (*big.Int).Append, (*big.Float).Append, fmt.Append*, time.AppendFormat, ojg AppendJSONString are assumed to append as documented")
+}
+
+// markAppendOnly puts the append-only option on the hand-written contracts of functions of the shape.
+func markAppendOnly(c *Ctx, cs *vc.Contracts) {
+	pkgs := map[string]bool{}
+	for _, p := range cs.Sweeps["append-only"] {
+		pkgs[p] = true
+	}
+	for n, ct := range cs.ByFunc {
+		fn := c.P.Funcs[n]
+		if fn == nil || !pkgs[pkgShort(fn)] || vc.AppendShape(fn) < 0 {
+			continue
+		}
+		ct.Options["append-only"] = true
+	}
 }
